@@ -245,6 +245,123 @@ func switchCases(repo, file, recv, fn string) ([]string, error) {
 	return nil, fmt.Errorf("%s: function %s.%s not found", file, recv, fn)
 }
 
+// discoverExits classifies every `return` inside the refresh loop of (*connPool).discover by its guard:
+//   errIsPoolCtx   if … errors.Is(err, <ctx param>.Err())   (the pool's own context)
+//   errIsOtherCtx  if … errors.Is(err, <other>.Err())       (e.g. the per-request deadline context)
+//   poolDone       case <-done / <-ctx.Done()               (done := <ctx param>.Done())
+//   otherChan      any other select case
+//   other          anything else (unconditional, other conditions)
+func discoverExits(repo string) ([]string, error) {
+	fset := token.NewFileSet()
+	f, err := parser.ParseFile(fset, filepath.Join(repo, "transport.go"), nil, 0)
+	if err != nil {
+		return nil, err
+	}
+	for _, d := range f.Decls {
+		fd, ok := d.(*ast.FuncDecl)
+		if !ok || fd.Body == nil || fd.Name.Name != "discover" || recvName(fd) != "connPool" {
+			continue
+		}
+		if fd.Type.Params == nil || len(fd.Type.Params.List) == 0 || len(fd.Type.Params.List[0].Names) == 0 {
+			return nil, fmt.Errorf("discover: no context parameter")
+		}
+		ctxName := fd.Type.Params.List[0].Names[0].Name
+		doneNames := map[string]bool{}
+		var loop *ast.ForStmt
+		for _, st := range fd.Body.List {
+			switch x := st.(type) {
+			case *ast.AssignStmt:
+				if len(x.Lhs) == 1 && len(x.Rhs) == 1 && exprString(x.Rhs[0]) == ctxName+".Done(…)" {
+					doneNames[exprString(x.Lhs[0])] = true
+				}
+			case *ast.ForStmt:
+				if loop == nil {
+					loop = x
+				}
+			}
+		}
+		if loop == nil {
+			return nil, fmt.Errorf("discover: no refresh loop")
+		}
+		var out []string
+		var walk func(n ast.Node, guard string)
+		walk = func(n ast.Node, guard string) {
+			switch x := n.(type) {
+			case nil:
+				return
+			case *ast.ReturnStmt:
+				out = append(out, guard)
+			case *ast.FuncLit:
+				return // returns of nested functions do not leave the loop
+			case *ast.IfStmt:
+				g := "other"
+				ast.Inspect(x.Cond, func(m ast.Node) bool {
+					if c, ok := m.(*ast.CallExpr); ok && exprString(c.Fun) == "errors.Is" && len(c.Args) == 2 {
+						if exprString(c.Args[1]) == ctxName+".Err(…)" {
+							g = "errIsPoolCtx"
+						} else if strings.HasSuffix(exprString(c.Args[1]), ".Err(…)") {
+							g = "errIsOtherCtx"
+						}
+					}
+					return true
+				})
+				walk(x.Body, g)
+				if x.Else != nil {
+					walk(x.Else, "other")
+				}
+			case *ast.CommClause:
+				g := "otherChan"
+				var recv ast.Expr
+				switch c := x.Comm.(type) {
+				case *ast.ExprStmt:
+					recv = c.X
+				case *ast.AssignStmt:
+					if len(c.Rhs) == 1 {
+						recv = c.Rhs[0]
+					}
+				}
+				if u, ok := recv.(*ast.UnaryExpr); ok && u.Op == token.ARROW {
+					if e := exprString(u.X); doneNames[e] || e == ctxName+".Done(…)" {
+						g = "poolDone"
+					}
+				}
+				for _, st := range x.Body {
+					walk(st, g)
+				}
+			case *ast.BlockStmt:
+				for _, st := range x.List {
+					walk(st, guard)
+				}
+			case *ast.ForStmt:
+				walk(x.Body, guard)
+			case *ast.RangeStmt:
+				walk(x.Body, guard)
+			case *ast.SelectStmt:
+				for _, cl := range x.Body.List {
+					walk(cl, guard)
+				}
+			case *ast.SwitchStmt:
+				for _, cl := range x.Body.List {
+					for _, st := range cl.(*ast.CaseClause).Body {
+						walk(st, "other")
+					}
+				}
+			case *ast.TypeSwitchStmt:
+				for _, cl := range x.Body.List {
+					for _, st := range cl.(*ast.CaseClause).Body {
+						walk(st, "other")
+					}
+				}
+			case *ast.LabeledStmt:
+				walk(x.Stmt, guard)
+			}
+		}
+		walk(loop.Body, "other")
+		return out, nil
+	}
+	return nil, fmt.Errorf("transport.go: (*connPool).discover not found")
+}
+
 func extractRouting(repo, root string) error {
 	keys, err := apiKeyConsts(repo)
 	if err != nil {
@@ -447,6 +564,17 @@ func extractRouting(repo, root string) error {
 	fmt.Fprintf(&b, "def sendRequestCases : List SwitchCase := %s  -- %s\n\n", q(sendCases), strings.Join(sendCases, ", "))
 	b.WriteString("/-- case order of the type switch on the request in transport.go (*connPool).roundTrip -/\n")
 	fmt.Fprintf(&b, "def roundTripCases : List SwitchCase := %s  -- %s\n\n", q(rtCases), strings.Join(rtCases, ", "))
+	exits, err := discoverExits(repo)
+	if err != nil {
+		return err
+	}
+	b.WriteString("/-- guard of a `return` inside the refresh loop of transport.go (*connPool).discover -/\n")
+	b.WriteString("inductive ExitGuard where\n  | errIsPoolCtx | errIsOtherCtx | poolDone | otherChan | other\n  deriving DecidableEq, Repr, Inhabited\n\n")
+	b.WriteString("/-- every way the refresh loop of (*connPool).discover returns, in source order -/\n")
+	for i := range exits {
+		exits[i] = "." + exits[i]
+	}
+	fmt.Fprintf(&b, "def discoverExits : List ExitGuard := [%s]\n\n", strings.Join(exits, ", "))
 	b.WriteString("end KV.Gen.Routing\n")
 	out := filepath.Join(root, "lean", "KafkaVerif", "Gen", "Routing.lean")
 	return os.WriteFile(out, []byte(b.String()), 0o644)
